@@ -1,35 +1,62 @@
 (* C15 — Rejected connections and requests never reach a handler, on any ingress.
    Statements only; every proof is `exact <lemma>`. *)
-From Coq Require Import List NArith Arith Bool.
-From RPCX Require Import Server.Dispatch Server.Ingress Server.IngressProofs.
+From Coq Require Import List NArith Arith Bool String.
+From RPCX Require Import Server.Dispatch Server.Ingress Server.IngressProofs Server.Plugins Server.PluginsGen Server.PluginsProofs.
 Import ListNotations.
+Open Scope string_scope.
 
 (* For every ingress (native, HTTP gateway, JSON-RPC), every configuration of rejecting stages
    (accept plugin, post-read plugin, authentication, pre-call plugin), every token (missing, wrong,
    right), every flag combination of the request and every service table / handler: a rejected
    request runs no handler and the requester gets no result. *)
-Theorem C15_rejected_never_reaches_a_handler : forall find codec_ok decodable handler ing c rq,
+Theorem C15_rejected_never_reaches_a_handler : forall find codec_ok decodable handler hmeta ing c rq,
   rejected ing c rq = true ->
   (find (q_path (i_q rq)) (q_meth (i_q rq)) <> TRouter \/ ic_precall c = false) ->
-  o_invoked (serve find codec_ok decodable handler ing c rq) = [] /\
-  is_result (o_out (serve find codec_ok decodable handler ing c rq)) = false.
+  o_invoked (serve find codec_ok decodable handler hmeta ing c rq) = [] /\
+  is_result (o_out (serve find codec_ok decodable handler hmeta ing c rq)) = false.
 Proof. exact rejected_never_reaches_a_handler. Qed.
 
 (* on the native protocol a connection that failed authentication is closed *)
-Theorem C15_native_auth_failure_closes : forall find codec_ok decodable handler c rq,
+Theorem C15_native_auth_failure_closes : forall find codec_ok decodable handler hmeta c rq,
   ic_accept_veto c = false -> ic_postread c = false -> q_hb (i_q rq) = false ->
   auth_ok c (i_token rq) = false ->
-  o_closed (serve find codec_ok decodable handler Native c rq) = true /\
-  o_invoked (serve find codec_ok decodable handler Native c rq) = [].
+  o_closed (serve find codec_ok decodable handler hmeta Native c rq) = true /\
+  o_invoked (serve find codec_ok decodable handler hmeta Native c rq) = [].
 Proof. exact native_auth_failure_closes. Qed.
 
 (* the heartbeat flag never lets a request reach a handler (natively it is echoed; on the HTTP
    ingresses it is ignored and authentication applies: covered by the first theorem) *)
-Theorem C15_heartbeat_never_reaches_a_handler : forall find codec_ok decodable handler c rq,
+Theorem C15_heartbeat_never_reaches_a_handler : forall find codec_ok decodable handler hmeta c rq,
   q_hb (i_q rq) = true ->
-  o_invoked (serve find codec_ok decodable handler Native c rq) = [] /\
-  is_result (o_out (serve find codec_ok decodable handler Native c rq)) = false.
+  o_invoked (serve find codec_ok decodable handler hmeta Native c rq) = [] /\
+  is_result (o_out (serve find codec_ok decodable handler hmeta Native c rq)) = false.
 Proof. exact heartbeat_never_reaches_a_handler_natively. Qed.
+
+(* The same over plugin chains.  [accept], [postread], [precall] are the verdicts of the plugins registered for the
+   three stages, in registration order (true = rejects); how a chain combines its verdicts is read from the table
+   regenerated from server/plugin.go on every run (Server/PluginsGen.v): whichever plugin rejects - first, last or in
+   the middle - the request runs no handler and yields no result, on every ingress. *)
+Theorem C15_any_rejecting_plugin_wherever_registered :
+  forall find codec_ok decodable handler hmeta accept postread precall auth ing rq,
+  In true accept \/ In true postread \/
+  (In true precall /\ (match ing with Native => q_hb (i_q rq) | _ => false end) = false) ->
+  find (q_path (i_q rq)) (q_meth (i_q rq)) <> TRouter \/ ~ In true precall ->
+  let c := cfg_of_plugins accept postread precall auth in
+  o_invoked (serve find codec_ok decodable handler hmeta ing c rq) = [] /\
+  is_result (o_out (serve find codec_ok decodable handler hmeta ing c rq)) = false.
+Proof. exact any_rejecting_plugin_keeps_the_request_out. Qed.
+
+(* the obligation on the generated table: the three rejecting stages stop at the first rejection *)
+Theorem C15_rejecting_stages_stop_at_the_first_rejection :
+  kind_eqb (kind_of plugin_chains "DoPostConnAccept") FirstReject &&
+  kind_eqb (kind_of plugin_chains "DoPostReadRequest") FirstReject &&
+  kind_eqb (kind_of plugin_chains "DoPreCall") FirstReject = true.
+Proof. exact rejecting_stages_first_reject. Qed.
+
+Example C15_chain_nonvacuous :
+  ic_precall (cfg_of_plugins [] [] [false; true; false] false) = true /\
+  ic_precall (cfg_of_plugins [] [] [false; false] false) = false.
+Proof. vm_compute. split; reflexivity. Qed.
 
 Example C15_nonvacuous :
   rejected Gateway (mkICfg true false true false) (mkIRq TokRight false (mkReq 1 1 1 1 false false 1)) = true /\
@@ -37,5 +64,7 @@ Example C15_nonvacuous :
 Proof. split; reflexivity. Qed.
 
 Print Assumptions C15_rejected_never_reaches_a_handler.
+Print Assumptions C15_any_rejecting_plugin_wherever_registered.
+Print Assumptions C15_rejecting_stages_stop_at_the_first_rejection.
 Print Assumptions C15_native_auth_failure_closes.
 Print Assumptions C15_heartbeat_never_reaches_a_handler.
